@@ -56,7 +56,8 @@ type dir28 struct {
 	codec   int // 0 JSON, 1 msgpack
 	a, b    int64
 	restart bool
-	catchup int // after a rejected tampered set: 0 sync untampered, 1 execute
+	catchup int  // after a rejected tampered set: 0 sync untampered, 1 execute
+	noSave  bool // do not persist this block yet: the next block is stacked on a block that lives in memory only
 }
 
 type sent28 struct {
@@ -72,6 +73,8 @@ type oracle28 struct {
 	nblk    int
 	lost    bool // the replica could not follow any more (after a reported violation)
 	lastSet map[string]struct{}
+	unsaved []*block.Block // accepted blocks not persisted yet (oldest first)
+	deferOK bool           // the directive of the block in hand asks to postpone its save
 }
 
 func (o *oracle28) AfterTxn(w *ledger.World, bc *ledger.BlockCtx, out *ledger.Outcome) {}
@@ -378,6 +381,10 @@ func (o *oracle28) AfterBlock(w *ledger.World, bc *ledger.BlockCtx) {
 	if head == nil {
 		panic("replica lost its head")
 	}
+	o.deferOK = d.noSave
+	if d.restart && head.Round > 0 && !o.flush(w) {
+		return
+	}
 	if d.restart && head.Round > 0 {
 		if err := o.rp.Restart(head); err != nil {
 			o.viol(w, "restart", "C28/replica-cannot-restart-from-disk", err.Error())
@@ -511,10 +518,21 @@ func (o *oracle28) accepted(w *ledger.World, b, nb *block.Block, want map[string
 		}
 		o.lastSet = live
 	}
-	// save and read everything back from the persistent node DB alone
-	if err := o.rp.Save(nb); err != nil {
-		o.viol(w, "save", "C28/replica-cannot-save/"+how, fmt.Sprintf("block %d: %v", b.Round, err))
-		o.lost = true
+	o.rp.Blocks[nb.Hash] = nb
+	o.rp.C.AddBlock(nb)
+	if o.deferOK && len(o.unsaved) < 3 {
+		// keep it in memory: the next block is synced / executed on top of an unpersisted block
+		o.unsaved = append(o.unsaved, nb)
+		tr.Probe("save-postponed/" + how)
+		tr.Probe("full-state-equal/" + how)
+		return
+	}
+	// save (older postponed blocks first) and read everything back from the persistent node DB alone
+	if len(o.unsaved) > 0 {
+		tr.Probe("stacked-on-unsaved-block/" + how)
+	}
+	o.unsaved = append(o.unsaved, nb)
+	if !o.flush(w) {
 		return
 	}
 	disk, err := ledger.Leaves(o.rp.C.GetStateDB(), b.ClientStateHash)
@@ -530,8 +548,19 @@ func (o *oracle28) accepted(w *ledger.World, b, nb *block.Block, want map[string
 	}
 	tr.Probe("full-state-equal/" + how)
 	tr.State(fmt.Sprintf("%s:%x", how, short(b.ClientStateHash)))
-	o.rp.Blocks[nb.Hash] = nb
-	o.rp.C.AddBlock(nb)
+}
+
+// flush persists the postponed blocks, oldest first.
+func (o *oracle28) flush(w *ledger.World) bool {
+	for _, ub := range o.unsaved {
+		if err := o.rp.Save(ub); err != nil {
+			o.viol(w, "save", "C28/replica-cannot-save", fmt.Sprintf("block %d: %v", ub.Round, err))
+			o.lost = true
+			return false
+		}
+	}
+	o.unsaved = nil
+	return true
 }
 
 // tampered delivers a tampered set and demands rejection without any trace.
@@ -624,7 +653,7 @@ func gen28(sc ledger.Scenario) func(seed uint64, tier string) *sim.Plan {
 			return sim.Step{Op: "c28.dir", I: []int64{
 				int64(mode), int64(tam.Intn(len(kinds28))), int64(net.Intn(2)),
 				int64(tam.Intn(1 << 20)), int64(tam.Intn(1 << 20)),
-				int64(net.Pick([]int{6, 1})), int64(net.Intn(2)),
+				int64(net.Pick([]int{6, 1})), int64(net.Intn(2)), int64(net.Pick([]int{3, 1})),
 			}}
 		}
 		var out []sim.Step
@@ -652,7 +681,7 @@ func init() {
 		}
 		o := &oracle28{rp: w.NewReplica("lag")}
 		r.Ops["c28.dir"] = func(r *ledger.Runner, st sim.Step) {
-			o.dir = dir28{mode: int(st.Int(0, 0)) % 3, kind: int(st.Int(1, 0)), codec: int(st.Int(2, 0)) % 2, a: st.Int(3, 0), b: st.Int(4, 0), restart: st.Int(5, 0) != 0, catchup: int(st.Int(6, 0)) % 2}
+			o.dir = dir28{mode: int(st.Int(0, 0)) % 3, kind: int(st.Int(1, 0)), codec: int(st.Int(2, 0)) % 2, a: st.Int(3, 0), b: st.Int(4, 0), restart: st.Int(5, 0) != 0, catchup: int(st.Int(6, 0)) % 2, noSave: st.Int(7, 0) != 0}
 			o.hasDir = true
 		}
 		return []ledger.Observer{o}
@@ -661,7 +690,7 @@ func init() {
 		ID: "C28", Title: "Synced state changes reproduce the computed state", World: "ledger",
 		Gen: gen28(sc), Exec: sc.Exec,
 		Quick: sim.Budget{Runs: 200, WallS: 80}, Thorough: sim.Budget{Runs: 8000, WallS: 1200},
-		LevelText: "per assembled block (mixed ledger workloads, all contracts) the primary publishes block.NewBlockStateChange; the message goes through the shipped codec (datastore.ToJSON/FromJSON or ToMsgpack/FromMsgpack into a fresh StateChange, ComputeProperties as the receiver runs it) over a simulated link that delivers it as published or tampered (12 kinds chosen up front in the plan: node dropped, foreign node added, node bytes altered/truncated, root replaced, wrong block hash, another block's set verbatim or relabelled, duplicate node, truncated list, changed node swapped for an unchanged one with root/hash/count all matching, version field altered, live node added to the dead list); a lagging replica chain (own PNodeDB on its own simulated disk) applies it with the shipped Block.ApplyBlockStateChange on its wire copy of the block, saves, and keeps following, alternating between syncing and executing, with restarts from disk. Untampered: must be accepted, root == declared root == executed root, and the full state walked from the replica (memory view and disk-only view) equals the primary's. Tampered: must be rejected and the replica's disk (content digest and write counter), the block's state status and the previous state are unchanged",
+		LevelText: "per assembled block (mixed ledger workloads, all contracts) the primary publishes block.NewBlockStateChange; the message goes through the shipped codec (datastore.ToJSON/FromJSON or ToMsgpack/FromMsgpack into a fresh StateChange, ComputeProperties as the receiver runs it) over a simulated link that delivers it as published or tampered (12 kinds chosen up front in the plan: node dropped, foreign node added, node bytes altered/truncated, root replaced, wrong block hash, another block's set verbatim or relabelled, duplicate node, truncated list, changed node swapped for an unchanged one with root/hash/count all matching, version field altered, live node added to the dead list); a lagging replica chain (own PNodeDB on its own simulated disk) applies it with the shipped Block.ApplyBlockStateChange on its wire copy of the block, saves, and keeps following, alternating between syncing and executing, sometimes stacking up to three blocks in memory before persisting them, with restarts from disk. Untampered: must be accepted, root == declared root == executed root, and the full state walked from the replica (memory view and disk-only view) equals the primary's. Tampered: must be rejected and the replica's disk (content digest and write counter), the block's state status and the previous state are unchanged",
 		LevelNote: "the StateChange request handler closure of chain.getBlockStateChange (same three comparisons as ApplyBlockStateChange) is not reachable without the HTTP layer and is not run; blocks that leave the state unchanged go through the shipped Chain.GetBlockStateChange (no message). Nodes the replica's synced state lists as dead are checked against the block's live node set (what finalisation would record for pruning). The MPT, MemoryNodeDB.ComputeRoot/validate and node decoding live in github.com/0chain/common (outside /repo); the checks of ApplyBlockStateChange, PartialState.ComputeProperties and the codec of the entity are in /repo",
 		Technique: "deterministic simulation: byzantine tamper faults on a simulated replica link, full-state equality and disk-untouched oracles",
 		DesignRef: "6/C28", Regime: "single-threaded event loop", Components: ledger.W1Components,
